@@ -107,6 +107,8 @@ def eval_rv(d, v):
 
 def rand_param(r):
     k = r.random()
+    if k < 0.12:
+        return 0.0          # a reward that is exactly zero is a reward ("x and y or z" idioms confuse it with no reward)
     if k < 0.3:
         return float(r.choice([-5.0, -1.0, -0.5, 0.0, 0.25, 1.0, 2.0, 5.0]))
     if k < 0.6:
